@@ -75,14 +75,14 @@ package hackpadfs
 //@ type subFS invariant s: VP(s.basePath) && s.rootFS != nil
 
 //@ func newSubFS(fs FS, dir string) (r FS, err error)
-//@   props C07 C04 C05
+//@   props C07 C04 C05 C03
 //@   ensures "gate" iff(err == nil, VP(dir))
 //@   ensures "errtype" implies(err != nil, r == nil && isPathError(err) && pathOf(err) == dir && errIs(err, ErrInvalid))
 //@   ensures "view" implies(err == nil, isType(r, *subFS) && fresh(r.(*subFS)) && r.(*subFS).basePath == dir && r.(*subFS).rootFS == fs)
 //@   nopanic
 
 //@ func (fs *subFS) Mount(p string) (mount FS, subPath string)
-//@   props C07 C04 C06
+//@   props C07 C04 C06 C03
 //@   requires fs != nil
 //@   use vpSplit(fs.basePath, p)
 //@   ensures "root" mount == fs.rootFS
@@ -92,7 +92,7 @@ package hackpadfs
 //@   nopanic
 
 //@ func (fs *subFS) Open(name string) (f File, err error)
-//@   props C07 C04 C05
+//@   props C07 C04 C05 C03
 //@   modifies world()
 //@   requires fs != nil
 //@   ensures "gate" implies(!VP(name), f == nil && isPathError(err) && pathOf(err) == name && errIs(err, ErrInvalid) && world() == old(world()))
@@ -106,7 +106,7 @@ package hackpadfs
 //@ spec svOld(fs *subFS, o string) := pjoin(fs.basePath, o)
 //@ spec svRenErr(fs *subFS, o string, n string) := ret("hackpadfs.Rename", 0, fs.rootFS, svOld(fs, o), svOld(fs, n))
 //@ func (fs *subFS) Rename(oldname string, newname string) (err error)
-//@   props C07 C04 C05
+//@   props C07 C04 C05 C03
 //@   modifies world()
 //@   requires fs != nil
 //@   ensures "gate" [C04 C05 C07] implies(!VP(oldname) || !VP(newname), isLinkError(err) && oldOf(err) == oldname && newOf(err) == newname && errIs(err, ErrInvalid) && world() == old(world()))
@@ -182,7 +182,7 @@ package hackpadfs
 //@   nopanic
 
 //@ func Sub(fs FS, dir string) (r FS, err error)
-//@   props C07 C06 C08 C04 C05
+//@   props C07 C06 C08 C04 C05 C03
 //@   deterministic
 //@   ensures "native" implies(implements(fs, SubFS), r == old(ret("hackpadfs.(SubFS).Sub", 0, fs, dir)) && err == old(ret("hackpadfs.(SubFS).Sub", 1, fs, dir)) &&
 //@                      world() == old(worldAfter("hackpadfs.(SubFS).Sub", fs, dir)))
